@@ -755,9 +755,19 @@ def roundtrip_request(info, sid, ser, parser, snap, d):
             "doc": info.node(d)}
 
 
+def _parse_open(parser, html):
+    """`parse_slice` of an HTML text.  `DOMParser.parse_slice` expects the lxml tree with its `.text` / `.tail` strings
+    already turned into the `lxmltext` pseudo elements, which only `DOMParser.parse` does (on a plain lxml tree `parse_slice`
+    silently drops all text): the tree is run through `parse` first, as the library's own callers must."""
+    dom = html_fragment(html)
+    outcome(lambda: parser.parse(dom), 5.0)
+    return parser.parse_slice(dom)
+
+
 def real_form_ok(info, ser, parser, t_name, attrs_enc):
     """the row (type, attributes) of the schema part against the running library: a filled node of that type is serialised
-    by the real serializer and its HTML parsed (as an open slice) by the real parser — True when a node of the type with
+    by the real serializer and its HTML parsed (as an open slice: no placement under `doc`) by the real parser — True when
+    a node of the type with
     the same attributes comes back, False when not (or the serializer has no `toDOM` for it), None when no node can be built"""
     typ = info.schema.nodes[t_name]
     try:
@@ -766,7 +776,7 @@ def real_form_ok(info, ser, parser, t_name, attrs_enc):
         return None
     if node is None:
         return None
-    st, sl = outcome(lambda: parser.parse_slice(html_fragment(str(ser.serialize_node(node)))), 5.0)
+    st, sl = outcome(lambda: _parse_open(parser, str(ser.serialize_node(node))), 5.0)
     if st != "ok":
         return False
     found = []
@@ -775,6 +785,25 @@ def real_form_ok(info, ser, parser, t_name, attrs_enc):
         if n.type is typ:
             return info.attrs(typ, n.attrs) == info.attrs(typ, node.attrs)
     return False
+
+
+def real_mark_ok(info, ser, parser, m_name, attrs_enc):
+    """a mark pattern of the schema part against the running library: a text `x` carrying the mark, inside the first
+    textblock type that allows it, is serialised and parsed back (open slice) — does the text come back with exactly that mark?"""
+    schema = info.schema
+    mt = schema.marks[m_name]
+    try:
+        mark = mt.create({k: json.loads(v) for k, v in attrs_enc})
+        host = next(t for t in schema.nodes.values() if t.is_textblock and t.allows_mark_type(mt) and t.name in ser.nodes)
+        node = host.create(None, schema.text("x", [mark]))
+    except Exception:  # noqa: BLE001
+        return None
+    st, sl = outcome(lambda: _parse_open(parser, str(ser.serialize_node(node))), 5.0)
+    if st != "ok":
+        return False
+    found = []
+    sl.content.descendants(lambda n, pos, parent, i: found.append(n) or True)
+    return any(n.is_text and n.text == "x" and info.marks(n.marks) == [info.mark(mark)] for n in found)
 
 
 def roundtrip_schema_tie(ctx, names):
@@ -827,6 +856,17 @@ def roundtrip_schema_tie(ctx, names):
             if row not in forms:
                 forms.append(row)
         e["forms"] = forms
+        for m, ok in out.get("markPatterns", []):
+            real = real_mark_ok(info, ser_real, parser_real, info.mark_names[m[0]], m[1])
+            ctx.case(["rt-schema-mark", name, m], sample={"op": "schema-part mark pattern vs real serialise+parse", "schema": name, "mark": info.mark_names[m[0]]})
+            if real is None:
+                ctx.count("rt_schema_mark:no-host")
+            elif ok and not real:
+                ctx.mismatch("roundtrip-schema-mark", {"schema": name, "mark": info.mark_names[m[0]], "attrs": m[1]},
+                             "read back by the real parser (the schema part accepts this mark)", "not read back")
+            else:
+                ctx.count("rt_schema_mark:accepted-and-read-back" if ok else
+                          "rt_schema_mark:rejected-and-not-read-back" if not real else "rt_schema_mark:rejected-but-read-back")
         e["mark_patterns"] = [info.mark_names[m[0]] + ("" if ok else " is NOT read back") for m, ok in out.get("markPatterns", [])]
         want = ts.RT_SCHEMAS.get(name)
         ctx.case(["rt-schema-part", name], sample={"op": "rtSchemaOk", "schema": name})
